@@ -435,7 +435,7 @@ pub fn c18(seed: u64, thorough: bool, tw: &mut TraceWriter) -> Cov {
             cfg.notifydown = r.random_range(0..3) != 0;
             cfg.maxtx = pick(&mut r, &[1u8, 2, 3]);
             cfg.fanout = pick(&mut r, &[1usize, 2, 3]);
-            let pol = pick(&mut r, &[Policy::None, Policy::Next]);
+            let pol = pick(&mut r, &[Policy::None, Policy::None, Policy::Next, Policy::Next, Policy::Losing, Policy::Same]);
             let scfg = SimCfg { n, cfg: cfg.clone(), codec: CodecKind::Hand(Mode::Fixed), handler: HandlerCfg::default(), pol,
                                 seed: r.random(), lat: (0, 0), late: 0 };
             let mut sim = Sim::new(scfg, run, "c18", json!({}), tw);
